@@ -97,15 +97,20 @@ func c08FirstLine(r *core.Rand) string {
 }
 
 // breakingWriter accepts `left` bytes and then fails every write (short write + error).
-type breakingWriter struct{ left int }
+type breakingWriter struct {
+	left int
+	got  []byte
+}
 
 func (w *breakingWriter) Write(p []byte) (int, error) {
 	if len(p) <= w.left {
 		w.left -= len(p)
+		w.got = append(w.got, p...)
 		return len(p), nil
 	}
 	n := w.left
 	w.left = 0
+	w.got = append(w.got, p[:n]...)
 	return n, errInjectedRead
 }
 
@@ -175,6 +180,8 @@ func (p c08) paraCase(c *core.C, fields []c08Field) {
 		}
 	}
 	var buf bytes.Buffer
+	var broken []*breakingWriter
+	var brokenErr []error
 	// now and then the paragraph first goes to a writer that breaks down part-way (a full disk, a closed
 	// connection); whatever that attempt left behind must not leak into later output
 	if len(fields)%3 == 1 {
@@ -182,13 +189,24 @@ func (p c08) paraCase(c *core.C, fields []c08Field) {
 		for _, f := range fields {
 			k += len(f.Name)
 		}
-		para.WriteTo(&breakingWriter{left: k})
-		para.WriteTo(&breakingWriter{left: 0})
+		broken = append(broken, &breakingWriter{left: k}, &breakingWriter{left: 0})
+		for _, w := range broken {
+			brokenErr = append(brokenErr, para.WriteTo(w))
+		}
 		c.Cover("writer:broke-down-in-an-earlier-call")
 	}
 	if err := para.WriteTo(&buf); err != nil {
 		c.Failf("WriteTo failed: %v", err)
 		return
+	}
+	// a write that reports success has delivered the paragraph: what a writer that broke down accepted before
+	// WriteTo returned nil must be the whole text
+	for i, w := range broken {
+		if brokenErr[i] == nil && !bytes.Equal(w.got, buf.Bytes()) {
+			c.Failf("WriteTo returned nil although the writer failed after accepting %d bytes: it holds %q, the paragraph is %q", len(w.got), w.got, buf.Bytes())
+		} else if brokenErr[i] != nil {
+			c.Cover("writer:failure-reported")
+		}
 	}
 	scanWritten(c, "WriteTo", buf.Bytes())
 	got, err := c07Read("All", "string", buf.String(), 1)
